@@ -27,14 +27,14 @@ CLAIMED = {
             "constructed on the Ok edge of verify() or in an unsafe fn, and six violating client programs fail to "
             "compile (twins compile). Decides 'accepts iff in range'; not 'accepted configs never panic'.", "4/C07"),
     "C16": ("CONSTARG + MPT + operand dataflow on the CRC verification sites; ERRDISC on nom::Err; PANICSITE "
-            "enumeration from parser::stream with a per-site SAFE table + FRAMING (frames read until end of input with CRC checks on, no error-swallowing combinator)",
+            "enumeration from parser::stream with a per-site SAFE table + FRAMING (frames read until end of input with CRC checks on, no error-swallowing combinator) + IMPLICIT (bounds/overflow/shift/division assertions on the stream-parse path discharged from field widths read, guards, loop ranges and payload bounds; 5 SAFE entries resting on the STREAMINFO invariant)",
             "CRC-8/CRC-16 verification is shown to be unconditional on the stream path, on every Ok path, an "
             "equality of parsed and computed value, spanning the whole header/frame, with degree-8/16 generators "
             "(so every burst <= 8/16 bits is detected); all explicit panic constructs reachable from the stream "
             "parser are enumerated and individually discharged; implicit (arithmetic/index) panics are not decided.",
             "4/C16"),
     "C18": ("PANICSITE (explicit panic constructs from constructors/Verify impls, SAFE table with machine-checked "
-            "premises) + DIVGUARD + CASTCHECK + block-size lower-bound RANGE + RANGE/twos-complement (sample checks are the exact W-bit range)",
+            "premises) + DIVGUARD + CASTCHECK + block-size lower-bound RANGE + RANGE/twos-complement (sample checks are the exact W-bit range) + IMPLICIT (every bounds/overflow/shift/division assertion met while summarising the constructors and Verify impls is discharged from the facts verified on the paths to it)",
             "Narrow: every explicit panic construct, every division by a runtime value, every narrowing cast of a "
             "constructor argument and every zero-able block size in the constructor/verify universe is an obligation "
             "that is discharged structurally (dominating `?`-propagated range check) or reported. Overflow/shift/"
